@@ -108,6 +108,7 @@ type Exec struct {
 	cuts    map[string]bool
 	nice    []*Term
 	symOnly bool
+	lastErr string
 	preemptBound int
 	buffers map[string]*Term
 	bufAliases map[string][]*BytesV
